@@ -8,6 +8,9 @@
  *   CL id mask           which input events window id's handlers claim
  *   MU id cls act tgt    when window id sees an event of class cls (0 key, 1 mouse) it
  *                        closes (act 1) or closes and destroys (act 2) window tgt, once
+ *   RA id n <act>*n      calls window id's expose handler makes into the window layer after
+ *                        drawing, every time it runs: ea w | ex w t l h c | sh w | hi w |
+ *                        ra w | rf w | lo w | lb w
  * Observation: one record per F / TF / K / MS op (see print_* below).
  *
  * src/window.c is #included so that the harness can print the internal focus links; every
@@ -45,7 +48,10 @@ static bool gd_print(TickitTermDriver *ttd, const char *str, size_t len)
   while(i < len) {
     unsigned char b = (unsigned char)str[i];
     int n = b < 0x80 ? 1 : b < 0xe0 ? 2 : b < 0xf0 ? 3 : 4;
-    int cp = b < 0x80 ? b : 0x2500;     /* any non-ASCII glyph is a line glyph here */
+    int cp = b;
+    if(n == 2) cp = ((b & 0x1f) << 6) | (str[i+1] & 0x3f);
+    else if(n == 3) cp = ((b & 0x0f) << 12) | ((str[i+1] & 0x3f) << 6) | (str[i+2] & 0x3f);
+    else if(n == 4) cp = 0xfffd;
     if(g->line >= 0 && g->line < g->lines && g->col >= 0 && g->col < g->cols)
       g->cells[g->line * g->cols + g->col] = cp;
     g->col++;
@@ -180,6 +186,7 @@ typedef struct {
   int claim;
   int nprog; Dop prog[MAXOPS];
   int mu_cls, mu_act, mu_tgt, mu_armed;
+  int nact; struct { char k[3]; int w, t, l, h, c; } act[16];   /* calls made from inside the expose handler */
 } HW;
 static HW hw[MAXW];
 static int order[MAXW * 4], norder;  /* creation order */
@@ -266,6 +273,21 @@ static int on_expose(TickitWindow *win, TickitEventFlags flags, void *_info, voi
       case 's': tickit_renderbuffer_skip_at(rb, o->a, o->b, o->c); break;
       case 'k': tickit_renderbuffer_clear(rb); break;
     }
+  }
+  for(int k = 0; k < h->nact; k++) {
+    int w = h->act[k].w;
+    if(w < 0 || w >= MAXW || !hw[w].win || hw[w].dead) continue;
+    TickitWindow *tw = hw[w].win;
+    const char *a = h->act[k].k;
+    if(!strcmp(a, "ea")) tickit_window_expose(tw, NULL);
+    else if(!strcmp(a, "ex")) { TickitRect er = { .top = h->act[k].t, .left = h->act[k].l, .lines = h->act[k].h, .cols = h->act[k].c };
+                                tickit_window_expose(tw, &er); }
+    else if(!strcmp(a, "sh")) tickit_window_show(tw);
+    else if(!strcmp(a, "hi")) tickit_window_hide(tw);
+    else if(!strcmp(a, "ra")) tickit_window_raise(tw);
+    else if(!strcmp(a, "rf")) tickit_window_raise_to_front(tw);
+    else if(!strcmp(a, "lo")) tickit_window_lower(tw);
+    else if(!strcmp(a, "lb")) tickit_window_lower_to_back(tw);
   }
   return 1;
 }
@@ -356,18 +378,30 @@ static void bind_all(int id)
 static int term_lines(void) { int l, c; tickit_term_get_size(tt, &l, &c); return l; }
 static int term_cols(void)  { int l, c; tickit_term_get_size(tt, &l, &c); return c; }
 
+/* single-style line glyphs -> segment bits (1 north, 2 east, 4 south, 8 west) -> one character */
+static char line_char(int cp)
+{
+  static const int glyph[16] = { 0, 0x2575, 0x2576, 0x2514, 0x2577, 0x2502, 0x250c, 0x251c,
+                                 0x2574, 0x2518, 0x2500, 0x2534, 0x2510, 0x2524, 0x252c, 0x253c };
+  static const char *chars = "!\"#$%&'()*+,-{}";
+  for(int m = 1; m < 16; m++) if(glyph[m] == cp) return chars[m-1];
+  return '~';
+}
+
 static char cell_char(int line, int col)
 {
   int cp;
   if(tk == 'M') {
-    char buf[16] = { 0 };
-    size_t n = tickit_mockterm_get_display_text(mt, buf, sizeof buf - 1, line, col, 1);
-    cp = n == 0 ? 0 : (unsigned char)buf[0];
+    unsigned char buf[16] = { 0 };
+    size_t n = tickit_mockterm_get_display_text(mt, (char *)buf, sizeof buf - 1, line, col, 1);
+    cp = n == 0 ? 0 : buf[0];
+    if(n == 3) cp = ((buf[0] & 0x0f) << 12) | ((buf[1] & 0x3f) << 6) | (buf[2] & 0x3f);
+    else if(n >= 2) cp = 0xfffd;
   }
   else
     cp = gd->cells[line * gd->cols + col];
   if(cp == ' ') return '.';
-  if(cp >= 0x80) return '#';
+  if(cp >= 0x80) return line_char(cp);
   if(cp < 33 || cp > 126) return '~';
   return (char)cp;
 }
@@ -480,6 +514,22 @@ static int run_case(void)
       }
       continue;
     }
+    if(!strcmp(o, "RA")) {
+      int id = A(1), n = A(2); i += 3;
+      HW *h = (id >= 0 && id < MAXW) ? &hw[id] : NULL;
+      for(int k = 0; k < n && i < vh_ntok; k++) {
+        const char *a = vh_tok[i];
+        int isx = !strcmp(a, "ex");
+        if(h && h->nact < 16) {
+          strncpy(h->act[h->nact].k, a, 2); h->act[h->nact].k[2] = 0;
+          h->act[h->nact].w = A(1);
+          if(isx) { h->act[h->nact].t = A(2); h->act[h->nact].l = A(3); h->act[h->nact].h = A(4); h->act[h->nact].c = A(5); }
+          h->nact++;
+        }
+        i += isx ? 6 : 2;
+      }
+      continue;
+    }
     if(!strcmp(o, "CL")) { if(A(1) >= 0 && A(1) < MAXW) hw[A(1)].claim = A(2); i += 3; continue; }
     if(!strcmp(o, "MU")) {
       if(A(1) >= 0 && A(1) < MAXW) { HW *h = &hw[A(1)]; h->mu_cls = A(2); h->mu_act = A(3); h->mu_tgt = A(4); h->mu_armed = 1; }
@@ -537,9 +587,21 @@ static int run_case(void)
     if(!strcmp(o, "F")) {
       char before[2048]; snap_grid(before, sizeof before);
       xlen = 0; xlog[0] = 0;
+      /* the state right before the flush: tree, pending damage */
+      SEP(); printf("F U="); print_tree(root);
+      {
+        TickitRootWindow *rw = WINDOW_AS_ROOT(root);
+        size_t nd = tickit_rectset_rects(rw->damage);
+        printf(" P=");
+        if(!nd) printf("-");
+        for(size_t k = 0; k < nd; k++) {
+          TickitRect dr; tickit_rectset_get_rect(rw->damage, k, &dr);
+          printf("%s%d,%d,%d,%d", k ? ";" : "", dr.top, dr.left, dr.lines, dr.cols);
+        }
+      }
       tickit_window_flush(root);
       char after[2048]; snap_grid(after, sizeof after);
-      SEP(); printf("F T="); print_tree(root);
+      printf(" T="); print_tree(root);
       printf(" B=%s G=%s X=%s", before, after, xlen ? xlog : "-");
       print_cursor();
       printf(" A=");
@@ -547,6 +609,18 @@ static int run_case(void)
       for(int k = nsrec_printed; k < nsrec; k++)
         printf("%s%d,%d,%d,%d,%d,%d,%d,%d", k > nsrec_printed ? ";" : "", srec[k].id, srec[k].t, srec[k].l, srec[k].h, srec[k].w, srec[k].d, srec[k].r, srec[k].gen);
       nsrec_printed = nsrec;
+      {
+        /* pending damage and the flags, read from the root window's internals */
+        TickitRootWindow *rw = WINDOW_AS_ROOT(root);
+        size_t nd = tickit_rectset_rects(rw->damage);
+        printf(" D=");
+        if(!nd) printf("-");
+        for(size_t k = 0; k < nd; k++) {
+          TickitRect dr; tickit_rectset_get_rect(rw->damage, k, &dr);
+          printf("%s%d,%d,%d,%d", k ? ";" : "", dr.top, dr.left, dr.lines, dr.cols);
+        }
+        printf(" N=%d%d%d", rw->needs_expose ? 1 : 0, rw->needs_restore ? 1 : 0, rw->needs_later_processing ? 1 : 0);
+      }
       i += 1; continue;
     }
     if(!strcmp(o, "SC") || !strcmp(o, "SK")) {
